@@ -690,7 +690,7 @@ Definition run_cycle_lifted_tsl (w : wire) (acc : store * wire) (c : nat) : stor
   end.
 
 Definition fixed_size : Z := 6.
-Definition max_index : Z := 40.
+Definition max_index : Z := 200.
 
 Definition keys_ok (coll : Z) (w : wire) : bool :=
   forallb (fun l => match l with
